@@ -20,6 +20,7 @@ package main
 
 import (
 	"fmt"
+	"math"
 	"math/rand"
 	randv2 "math/rand/v2"
 	"os"
@@ -92,6 +93,7 @@ type rec struct {
 	ID     string `json:"id,omitempty"` // target / observed ID
 	Name   string `json:"n,omitempty"`  // written or observed version name
 	A      bool   `json:"a,omitempty"`  // written version can match the probe
+	M      bool   `json:"m,omitempty"`  // written version matches or not depending on the scanner-wide tolerance (D-versions)
 	Found  bool   `json:"f,omitempty"`
 	Ok     bool   `json:"ok,omitempty"`
 	Call   int64  `json:"t0"`
@@ -242,6 +244,101 @@ func pebbleHistory(res *evid.Result, cfg histCfg) {
 	}
 }
 
+// settingsHistory: one D-version of X in the store, nothing else written; one goroutine flips
+// the scanner-wide entropy tolerance between the value that lets the D-version through (2)
+// and the one that filters it out (0.5) as fast as it can while readers scan. Whatever a
+// reader is handed must be what ONE of the two settings yields: either nothing, or the alert
+// that tolerance 2 produces (confidence and entropy_match decided by executing
+// detection.MatchSignature with that tolerance).
+func settingsHistory(res *evid.Result, idx int) {
+	db, err := openMem(fmt.Sprintf("/vdb/c11-settings-%d", idx))
+	if err != nil {
+		res.Violate("harness/open", err.Error(), nil)
+		return
+	}
+	defer db.Close()
+	d := version("X", "D-settings", true)
+	d.EntropyScore, d.EntropyTolerance = probe.EntropyScore+1, 0
+	if err := db.AddSignature(&d); err != nil {
+		res.Violate("op-result/AddSignature", err.Error(), nil)
+		return
+	}
+	db.SetThreshold(0.5)
+	want := detection.MatchSignature(probe, "f", d, 2)
+	stop := make(chan struct{})
+	var flips atomic.Int64
+	var fw sync.WaitGroup
+	fw.Add(1)
+	go func() {
+		defer fw.Done()
+		for i := 0; ; i++ {
+			select {
+			case <-stop:
+				return
+			default:
+			}
+			db.SetEntropyTolerance([]float64{0.5, 2}[i%2])
+			flips.Add(1)
+			if i%4 == 3 {
+				runtime.Gosched()
+			}
+		}
+	}()
+	readers, each := 6, evid.Pick(150, 2000)
+	var wg sync.WaitGroup
+	for c := 0; c < readers; c++ {
+		wg.Add(1)
+		go func(c int) {
+			defer wg.Done()
+			judge := func(kind string, x detection.ScanResult) {
+				res.Count("settings_alerts", 1)
+				if math.Abs(x.Confidence-want.Confidence) > 1e-12 || x.MatchDetails.EntropyMatch != want.MatchDetails.EntropyMatch {
+					res.Violate("mixed-settings/"+kind, fmt.Sprintf("%s reported the D-version with confidence %v (entropy_match=%v); under the one tolerance that lets it through (2) it scores %v (entropy_match=%v), under the other (0.5) it is not reported at all: the alert mixes two settings", kind, x.Confidence, x.MatchDetails.EntropyMatch, want.Confidence, want.MatchDetails.EntropyMatch), nil)
+				}
+			}
+			for i := 0; i < each; i++ {
+				switch (i + c) % 3 {
+				case 0:
+					rs, err := db.ScanTopology(probe, "f")
+					if err != nil {
+						res.Violate("op-result/ScanTopology", err.Error(), nil)
+					}
+					if len(rs) == 0 {
+						res.Count("settings_silent", 1)
+					}
+					for _, x := range rs {
+						judge("scan", x)
+					}
+				case 1:
+					x, err := db.ScanTopologyExact(probe, "f")
+					if err != nil {
+						res.Violate("op-result/ScanTopologyExact", err.Error(), nil)
+					}
+					if x == nil {
+						res.Count("settings_silent", 1)
+					} else {
+						judge("exact", *x)
+					}
+				default:
+					m := db.ScanBatch(map[string]*topology.FunctionTopology{"f": probe})
+					if len(m["f"]) == 0 {
+						res.Count("settings_silent", 1)
+					}
+					for _, x := range m["f"] {
+						judge("bscan", x)
+					}
+				}
+			}
+		}(c)
+	}
+	wg.Wait()
+	close(stop)
+	fw.Wait()
+	res.Eval(readers * each)
+	res.Count("settings_histories", 1)
+	res.Count("settings_flips", int(flips.Load()))
+}
+
 func writerOp(db *pebbledb.PebbleScanner, r *rand.Rand, c, i int, cfg histCfg, now func() int64, add func(rec), report func(string, string, any)) {
 	name := func(tag string) string { return fmt.Sprintf("%s%d-%d", tag, c, i) }
 	if cfg.pairMode {
@@ -271,7 +368,17 @@ func writerOp(db *pebbledb.PebbleScanner, r *rand.Rand, c, i int, cfg histCfg, n
 			tag = "A"
 		}
 		s := version(id, name(tag), a)
-		if !a && r.Intn(2) == 0 {
+		maybe := false
+		if a && r.Intn(4) == 0 {
+			// D-versions: an A-version one entropy unit away from the probe, without a
+			// tolerance of its own: with the scanner-wide tolerance at 2 it is reported (with
+			// one definite confidence), at 0.5 it is filtered out. Nothing in between exists.
+			s = version(id, name("D"), true)
+			s.EntropyScore = probe.EntropyScore + 1
+			s.EntropyTolerance = 0
+			a, maybe = false, true
+		}
+		if !a && !maybe && r.Intn(2) == 0 {
 			// C-versions: the hashes of an A-version (every index KEY stays what it was) but an
 			// entropy far outside any tolerance: the values packed into the index entries decide
 			// that the probe cannot match, so a C-version must never be reported either
@@ -285,7 +392,7 @@ func writerOp(db *pebbledb.PebbleScanner, r *rand.Rand, c, i int, cfg histCfg, n
 		if err != nil {
 			report("op-result/AddSignature", err.Error(), nil)
 		}
-		add(rec{Client: c, Kind: "put", ID: id, Name: s.Name, A: a, Call: t0, Ret: t1})
+		add(rec{Client: c, Kind: "put", ID: id, Name: s.Name, A: a, M: maybe, Call: t0, Ret: t1})
 	case k < 13:
 		t0 := now()
 		err := db.DeleteSignature(id)
@@ -347,6 +454,7 @@ func readerOp(db *pebbledb.PebbleScanner, r *rand.Rand, c int, cfg histCfg, now 
 		id, name string
 		conf     float64
 		topo     bool
+		ent      bool
 	}
 	var seen []obs
 	kind := ""
@@ -359,7 +467,7 @@ func readerOp(db *pebbledb.PebbleScanner, r *rand.Rand, c int, cfg histCfg, now 
 			report("op-result/ScanTopology", err.Error(), nil)
 		}
 		for _, x := range rs {
-			seen = append(seen, obs{x.SignatureID, x.SignatureName, x.Confidence, x.MatchDetails.TopologyMatch})
+			seen = append(seen, obs{x.SignatureID, x.SignatureName, x.Confidence, x.MatchDetails.TopologyMatch, x.MatchDetails.EntropyMatch})
 		}
 	case k < 6:
 		kind = "exact"
@@ -368,7 +476,7 @@ func readerOp(db *pebbledb.PebbleScanner, r *rand.Rand, c int, cfg histCfg, now 
 			report("op-result/ScanTopologyExact", err.Error(), nil)
 		}
 		if x != nil {
-			seen = append(seen, obs{x.SignatureID, x.SignatureName, x.Confidence, x.MatchDetails.TopologyMatch})
+			seen = append(seen, obs{x.SignatureID, x.SignatureName, x.Confidence, x.MatchDetails.TopologyMatch, x.MatchDetails.EntropyMatch})
 		}
 	case k < 7:
 		kind = "cand"
@@ -377,7 +485,7 @@ func readerOp(db *pebbledb.PebbleScanner, r *rand.Rand, c int, cfg histCfg, now 
 			report("op-result/ScanCandidates", err.Error(), nil)
 		}
 		for _, s := range cs {
-			seen = append(seen, obs{s.ID, s.Name, 1, s.TopologyHash == detection.GenerateTopologyHash(probe)})
+			seen = append(seen, obs{s.ID, s.Name, 1, s.TopologyHash == detection.GenerateTopologyHash(probe), true})
 		}
 	case k < 8:
 		kind = "bscan"
@@ -387,11 +495,25 @@ func readerOp(db *pebbledb.PebbleScanner, r *rand.Rand, c int, cfg histCfg, now 
 				continue
 			}
 			for _, x := range rs {
-				seen = append(seen, obs{x.SignatureID, x.SignatureName, x.Confidence, x.MatchDetails.TopologyMatch})
+				seen = append(seen, obs{x.SignatureID, x.SignatureName, x.Confidence, x.MatchDetails.TopologyMatch, x.MatchDetails.EntropyMatch})
 			}
 		}
-		if len(m["f"]) != len(m["g"]) {
-			report("batch-scan/two-views", fmt.Sprintf("ScanBatch returned %d alerts for one function and %d for an identical one under a single snapshot", len(m["f"]), len(m["g"])), nil)
+		// D-versions are reported or not depending on the scanner-wide tolerance, which the
+		// batch reads once per function and which changes concurrently: the property speaks
+		// of one database state, not of one setting per batch, so they are left out here
+		nf, ng := 0, 0
+		for _, x := range m["f"] {
+			if !strings.HasPrefix(x.SignatureName, "D") {
+				nf++
+			}
+		}
+		for _, x := range m["g"] {
+			if !strings.HasPrefix(x.SignatureName, "D") {
+				ng++
+			}
+		}
+		if nf != ng {
+			report("batch-scan/two-views", fmt.Sprintf("ScanBatch returned %d alerts for one function and %d for an identical one under a single snapshot", nf, ng), nil)
 		}
 	default:
 		kind = "get"
@@ -424,9 +546,18 @@ func readerOp(db *pebbledb.PebbleScanner, r *rand.Rand, c int, cfg histCfg, now 
 		if len(os) > 0 {
 			o := os[0]
 			x.Found, x.Name = true, o.name
+			if strings.HasPrefix(o.name, "D") && kind != "cand" {
+				// the only consistent way to report a D-version: tolerance 2 throughout
+				d := version(id, o.name, true)
+				d.EntropyScore, d.EntropyTolerance = probe.EntropyScore+1, 0
+				want := detection.MatchSignature(probe, "f", d, 2)
+				if math.Abs(o.conf-want.Confidence) > 1e-12 || o.ent != want.MatchDetails.EntropyMatch {
+					report("mixed-settings/"+kind, fmt.Sprintf("%s reported version %q of %q with confidence %v (entropy_match=%v); under the one tolerance that lets it through (2) it scores %v (entropy_match=%v), under the other (0.5) it is not reported at all: the alert mixes two settings", kind, o.name, id, o.conf, o.ent, want.Confidence, want.MatchDetails.EntropyMatch), nil)
+				}
+			}
 			if strings.HasPrefix(o.name, "B") || strings.HasPrefix(o.name, "C") {
 				report("mixed-version/"+kind, fmt.Sprintf("%s reported version %q of %q, a version whose record cannot match the probe: an index entry of another version was paired with this record", kind, o.name, id), nil)
-			} else if o.conf != 1 || !o.topo {
+			} else if !strings.HasPrefix(o.name, "D") && (o.conf != 1 || !o.topo) {
 				report("wrong-alert/"+kind, fmt.Sprintf("%s reported %q with confidence %v topologyMatch=%v, expected 1/true", kind, o.name, o.conf, o.topo), nil)
 			}
 		}
@@ -473,6 +604,7 @@ type input struct {
 	Op   string
 	Name string
 	A    bool
+	M    bool
 }
 type output struct {
 	Name  string
@@ -483,6 +615,7 @@ type state struct {
 	Present bool
 	A       bool
 	Name    string
+	M       bool // reported or not, depending on a setting that changes concurrently
 }
 
 func model(noneAlwaysLegal bool) porcupine.Model {
@@ -492,7 +625,7 @@ func model(noneAlwaysLegal bool) porcupine.Model {
 			s, i, o := st.(state), in.(input), out.(output)
 			switch i.Op {
 			case "put":
-				return true, state{true, i.A, i.Name}
+				return true, state{true, i.A, i.Name, i.M}
 			case "del":
 				return o.Ok == s.Present, state{}
 			case "get":
@@ -503,6 +636,9 @@ func model(noneAlwaysLegal bool) porcupine.Model {
 			default: // scan-like observation
 				if !o.Found && noneAlwaysLegal {
 					return true, s
+				}
+				if s.Present && s.M {
+					return !o.Found || o.Name == s.Name, s
 				}
 				if s.Present && s.A {
 					return o.Found && o.Name == s.Name, s
@@ -525,7 +661,7 @@ func checkLinearizable(res *evid.Result, cfg histCfg, all []rec) {
 			var in input
 			switch x.Kind {
 			case "put":
-				in = input{Op: "put", Name: x.Name, A: x.A}
+				in = input{Op: "put", Name: x.Name, A: x.A, M: x.M}
 			case "del":
 				in = input{Op: "del"}
 			case "get":
@@ -782,6 +918,15 @@ func child() {
 			defer func() { <-sem }()
 			pebbleHistory(res, cfg)
 		}()
+	}
+	for i := 0; i < evid.Pick(4, 40); i++ {
+		wg.Add(1)
+		sem <- struct{}{}
+		go func(i int) {
+			defer wg.Done()
+			defer func() { <-sem }()
+			settingsHistory(res, i)
+		}(i)
 	}
 	for i := 0; i < nj; i++ {
 		wg.Add(1)
